@@ -17,7 +17,7 @@ LEVEL = "exploration"
 TIERS = {"quick": dict(soups=6000, unicode=3000, binary=150, allkinds=4), "thorough": dict(soups=250000, unicode=100000, binary=3000, allkinds=5)}
 MINE = {"panic", "range", "message", "display"}
 TOO_BIG = re.compile(r"(\^|\*\*)[\s(+\-]*\d{3,}|[eE][+\-]?\d{4,}|\d{40,}")
-UNI = list("0123456789.eE+-*/^%(){}, \t") + list("abcdtomkszZ'°éü日本😀μΩ_\"=#~|\\<>[]!?:;&$@`") + [" ", " ", " ", "　", "\n", "\r"]
+UNI = list("0123456789.eE+-*/^%(){}, \t") + list("abcdtomkszZ'°éü日本😀μΩ_\"=#~|\\<>[]!?:;&$@`") + [" ", " ", " ", "　", "\n", "\r", "\ufeff"]
 
 
 def soup(rnd, words, n):
@@ -104,7 +104,7 @@ def run(chk):
         n = rnd.randint(1, 60)
         uni.append("".join(rnd.choice(UNI) for _ in range(n)))
     fixed = ["round(1.25, 1)", "1J/N * 1m", "3C/A / 8ms", "c/13.5min**3 VYm*", "(1m)^0", "(12N * 2m) ** 0 + 1", "1K / -273.15°C", "10m / -459.67°F", "1 ) ", "1 / 0", "0 ^ -1",
-             "", " ", "(", ")", "{", "}", "{a b", "1 +", "to", "1 to", "1 to to", "round(", "round()", "round(,)", "f(", "1e", ".", "-", "1 m^", "1 m^x", "1 2", "1 m 2", "sin(1 m)",
+             "\ufeff1 + 2", "2e+", "1E-x", ".5e+", " (", " 1 to", " f(", "", " ", "(", ")", "{", "}", "{a b", "1 +", "to", "1 to", "1 to to", "round(", "round()", "round(,)", "f(", "1e", ".", "-", "1 m^", "1 m^x", "1 2", "1 m 2", "sin(1 m)",
              "sin(1e300)", "cos()", "1e999 * 1e999", "1e-999 / 1e999", "5 % %", "%", "1 %%", "(((((((((((1)))))))))))", "1 " * 40, "(" * 70 + "1" + ")" * 70]
     strings = [s for s in fixed + soups + uni if not TOO_BIG.search(s)]
     chk.cov["filtered_beyond_stated_bounds"] = len(fixed + soups + uni) - len(strings)
